@@ -3279,7 +3279,15 @@ func sharedSwappedArgs(c *an.Ctx, rule string, prefixes ...string) (examined int
 					if pi == pj {
 						continue
 					}
-					if named[x].name == pj && named[y].name == pi || (named[x].name == pj && named[x].name != pi && named[y].name != pj) || (named[y].name == pi && named[y].name != pj && named[x].name != pi) {
+					// crossed, one-sided crossed, or one named value passed for both parameters although it is named
+					// after one of them only (newSRV(..., orig.Priority, orig.Priority, ...))
+					// an abbreviated parameter name stands for the full one (prio / priority)
+					eq := func(a, b string) bool {
+						return a == b || len(a) >= 3 && strings.HasPrefix(b, a) || len(b) >= 3 && strings.HasPrefix(a, b)
+					}
+					nx, ny := named[x].name, named[y].name
+					twice := nx == ny && (eq(nx, pi) || eq(nx, pj)) && !(eq(nx, pi) && eq(nx, pj))
+					if twice || eq(nx, pj) && eq(ny, pi) && !eq(nx, pi) || (eq(nx, pj) && !eq(nx, pi) && !eq(ny, pj)) || (eq(ny, pi) && !eq(ny, pj) && !eq(nx, pi)) {
 						c.Analysed(k)
 						c.Bad(rule, fmt.Sprintf("%s call of %s: arguments %d and %d", k, an.Short(an.FnKey(callee)), i, j), call.Pos(),
 							"argument %q is passed as parameter %q while the callee has a parameter %q of the same type: the arguments are crossed",
@@ -4343,7 +4351,7 @@ func hasAnyPrefix(s string, prefixes []string) bool {
 var propPkgs = map[string][]string{
 	"C01": {"dnsserver", "dnssvc", "dnsmsg.", "bindtodevice.", "ecscache.", "agdnet."},
 	"C02": {"filter", "dnssvc/internal/mainmw.", "dnsmsg.", "cmd.", "backendpb.", "profiledb/internal/filecachepb."},
-	"C03": {"dnssvc/internal/devicefinder.", "profiledb", "backendpb.", "agd.", "agdpasswd.", "cmd."},
+	"C03": {"dnssvc/internal/devicefinder.", "profiledb", "backendpb.", "agd.", "agdpasswd.", "cmd.", "bindtodevice.", "dnssvc."},
 	"C04": {"dnsserver/cache.", "ecscache.", "agdcache.", "dnsmsg.", "cmd."},
 	"C05": {"ecscache.", "geoip.", "dnsmsg.", "dnssvc/internal/ratelimitmw."},
 	"C06": {"dnsserver", "bindtodevice.", "dnsmsg.", "dnssvc/internal/mainmw.", "dnssvc/internal/ratelimitmw."},
@@ -4411,6 +4419,8 @@ func classSweep(c *an.Ctx, prop string) {
 	add("error-appends", sharedAppendResultUsed(c, rule, pk...))
 	add("aliasing-strings", sharedNoAliasingStrings(c, rule, pk...))
 	add("same-type-copies", sharedSameTypeCopyComplete(c, rule, pk...))
+	add("defer-flags", sharedDeferFlagsUpdated(c, rule, pk...))
+	add("single-put-defers", sharedSinglePutWithDefers(c, rule, pk...))
 	n := 0
 	for _, p := range pk {
 		n += sharedNoShallowCopy(c, rule, p, "github.com/miekg/dns.Msg")
@@ -7103,6 +7113,236 @@ func sharedEnumSwitchesAgree(c *an.Ctx, rule, pkgPath, constPrefix, validateSuff
 			c.Check(len(missing) == 0, rule, fmt.Sprintf("%s: the switch over %s knows every accepted %s value", k, op, constPrefix), fn.Pos(),
 				fmt.Sprintf("%d values, all that validation accepts", len(set)),
 				fmt.Sprintf("the switch over %s in %s treats an unknown value as a programmer error but has no case for %s, which validation accepts: a configuration that passes validation crashes the start-up", op, k, strings.Join(missing, ", ")))
+		}
+	}
+	return examined
+}
+
+// sharedDeferFlagsUpdated: a local flag that a deferred function tests (release
+// the buffer unless it was handed over, undo unless committed) is useful only
+// if the body changes it.  A flag that is declared with a constant and never
+// assigned again, typically because the assignment that was meant to set it
+// declared a new variable of the same name in an inner scope, makes the
+// deferred branch constant: the clean-up always (or never) runs.  For every
+// boolean local captured by a deferred function literal and read in a condition
+// there, the enclosing function stores a non-constant value or a second,
+// different constant into it.  Returns the number of such flags examined.
+func sharedDeferFlagsUpdated(c *an.Ctx, rule string, prefixes ...string) (examined int) {
+	for _, fn := range c.AllFns {
+		k := an.FnKey(fn)
+		if fn.Blocks == nil || c.IsTestFile(fn.Pos()) || !c.Prog.InRepo(fn) || !hasAnyPrefix(k, prefixes) {
+			continue
+		}
+		inFn := 0
+		an.Instrs(fn, func(in ssa.Instruction) {
+			d, ok := in.(*ssa.Defer)
+			if !ok {
+				return
+			}
+			mc, ok := d.Call.Value.(*ssa.MakeClosure)
+			if !ok {
+				return
+			}
+			lit, ok := mc.Fn.(*ssa.Function)
+			if !ok {
+				return
+			}
+			for bi, b := range mc.Bindings {
+				cell, ok := b.(*ssa.Alloc)
+				if !ok {
+					continue
+				}
+				if bt, ok := cell.Type().Underlying().(*types.Pointer).Elem().Underlying().(*types.Basic); !ok || bt.Kind() != types.Bool {
+					continue
+				}
+				// is the captured flag read in a condition of the literal?
+				fv := lit.FreeVars[bi]
+				tested := false
+				for _, r := range *fv.Referrers() {
+					ld, ok := r.(*ssa.UnOp)
+					if !ok || ld.Op != token.MUL {
+						continue
+					}
+					for _, r2 := range *ld.Referrers() {
+						switch y := r2.(type) {
+						case *ssa.If:
+							tested = true
+						case *ssa.UnOp:
+							if y.Op == token.NOT {
+								tested = true
+							}
+						}
+					}
+				}
+				if !tested {
+					continue
+				}
+				// stores into the cell, in the function and in its other closures
+				consts := map[string]bool{}
+				varying := false
+				var scan func(f *ssa.Function, addr ssa.Value)
+				scan = func(f *ssa.Function, addr ssa.Value) {
+					for _, r := range *addr.Referrers() {
+						switch y := r.(type) {
+						case *ssa.Store:
+							if y.Addr == addr {
+								if kc, isK := y.Val.(*ssa.Const); isK {
+									consts[kc.Value.String()] = true
+								} else {
+									varying = true
+								}
+							}
+						case *ssa.MakeClosure:
+							if g, ok := y.Fn.(*ssa.Function); ok {
+								for j, bb := range y.Bindings {
+									if bb == addr {
+										scan(g, g.FreeVars[j])
+									}
+								}
+							}
+						}
+					}
+				}
+				scan(fn, cell)
+				examined++
+				inFn++
+				c.Analysed(k)
+				c.Check(varying || len(consts) > 1, rule, fmt.Sprintf("%s: flag %s tested by a deferred function is set by the body", k, fv.Name()), cell.Pos(),
+					"the flag receives more than one value",
+					fmt.Sprintf("the flag %s, declared at %s and tested by the deferred function, is never assigned after its declaration (an assignment meant for it probably declared a new variable in an inner scope): the deferred clean-up takes the same branch whatever happened", fv.Name(), c.Pos(cell.Pos())))
+			}
+		})
+	}
+	return examined
+}
+
+// sharedSinglePutWithDefers (the variant of sharedSinglePut that also sees Puts made by deferred function
+// literals): an object taken from a pool goes back at most once.  Put
+// twice, it is handed to two later Gets, and two requests that overlap write
+// their state into the same object (the ECS cache's request record, a message,
+// a buffer).  For every value obtained from a Get of a syncutil / sync pool in a
+// function, the function has either deferred Puts of it or direct ones, not
+// both, and no direct Put can be reached from another direct Put of the same
+// value.  Returns the number of pooled values examined.
+func sharedSinglePutWithDefers(c *an.Ctx, rule string, prefixes ...string) (examined int) {
+	isPoolCall := func(call ssa.CallInstruction, method string) bool {
+		n := an.CalleeName(call)
+		return (strings.Contains(n, "syncutil.Pool") || strings.Contains(n, "sync.Pool")) && strings.HasSuffix(n, ")."+method) ||
+			call.Common().IsInvoke() && call.Common().Method.Name() == method && strings.Contains(call.Common().Value.Type().String(), "Pool")
+	}
+	for _, fn := range c.AllFns {
+		k := an.FnKey(fn)
+		if fn.Blocks == nil || c.IsTestFile(fn.Pos()) || !c.Prog.InRepo(fn) || !hasAnyPrefix(k, prefixes) || fn.Parent() != nil {
+			continue
+		}
+		inFn := 0
+		for _, get := range an.Calls(fn) {
+			gv, ok := get.(*ssa.Call)
+			if !ok || !isPoolCall(get, "Get") {
+				continue
+			}
+			// the Puts of this value: in the function itself (direct or `defer pool.Put(v)`) and in its deferred literals
+			var direct []ssa.Instruction
+			deferred := 0
+			matches := func(call ssa.CallInstruction, v ssa.Value) bool {
+				if !isPoolCall(call, "Put") {
+					return false
+				}
+				args := call.Common().Args
+				if len(args) == 0 {
+					return false
+				}
+				a := args[len(args)-1]
+				if a == v {
+					return true
+				}
+				// the value read back from the cell it is kept in (a variable that a closure captures)
+				if ld, isLd := a.(*ssa.UnOp); isLd && ld.Op == token.MUL {
+					if cell, isCell := ld.X.(*ssa.Alloc); isCell {
+						for _, st := range an.Stores(cell) {
+							if st.Val == v {
+								return true
+							}
+						}
+					}
+				}
+				return false
+			}
+			for _, call := range an.Calls(fn) {
+				if !matches(call, gv) {
+					continue
+				}
+				if _, isDefer := call.(*ssa.Defer); isDefer {
+					deferred++
+				} else {
+					direct = append(direct, call)
+				}
+			}
+			for _, call := range an.Calls(fn) {
+				d, ok := call.(*ssa.Defer)
+				if !ok {
+					continue
+				}
+				mc, ok := d.Call.Value.(*ssa.MakeClosure)
+				if !ok {
+					continue
+				}
+				lit, _ := mc.Fn.(*ssa.Function)
+				if lit == nil {
+					continue
+				}
+				for bi, b := range mc.Bindings {
+					// the value itself, or the cell it is kept in
+					holds := b == ssa.Value(gv)
+					if cell, isCell := b.(*ssa.Alloc); isCell {
+						for _, st := range an.Stores(cell) {
+							if st.Val == ssa.Value(gv) {
+								holds = true
+							}
+						}
+					}
+					if !holds {
+						continue
+					}
+					fv := lit.FreeVars[bi]
+					for _, lc := range an.Calls(lit) {
+						if !isPoolCall(lc, "Put") {
+							continue
+						}
+						args := lc.Common().Args
+						if len(args) == 0 {
+							continue
+						}
+						a := args[len(args)-1]
+						if ld, isLd := a.(*ssa.UnOp); isLd && ld.Op == token.MUL {
+							a = ld.X
+						}
+						if a == ssa.Value(fv) {
+							deferred++
+						}
+					}
+				}
+			}
+			if deferred == 0 && len(direct) < 2 {
+				continue
+			}
+			examined++
+			inFn++
+			c.Analysed(k)
+			bad := ""
+			if deferred > 0 && len(direct) > 0 {
+				bad = fmt.Sprintf("it is put back at %s and again by the deferred clean-up", c.Pos(direct[0].Pos()))
+			}
+			for _, a := range direct {
+				for _, b := range direct {
+					if a != b && an.CanReach(a, b) {
+						bad = fmt.Sprintf("it is put back at %s and again at %s on the same path", c.Pos(a.Pos()), c.Pos(b.Pos()))
+					}
+				}
+			}
+			c.Check(bad == "", rule, fmt.Sprintf("%s: pooled value %d goes back to its pool once", k, inFn), gv.Pos(),
+				"one return to the pool per path",
+				"the object taken from the pool at "+c.Pos(gv.Pos())+" is returned twice: "+bad+"; two later users get the same object and overwrite each other's state")
 		}
 	}
 	return examined
